@@ -333,6 +333,8 @@ func (w *world) buildSchema() *graphql.Schema {
 			return "", lookupError{}
 		case "wrapcancel": // something private to the resolver was cancelled; the subscription's own context is alive
 			return "", fmt.Errorf("rpc to %s failed: %w", secret, context.Canceled)
+		case "barecancel": // the error of a private sub-context, handed on as it is
+			return "", context.Canceled
 		case "safecancel":
 			return "", graphql.WrapAsSafeError(fmt.Errorf("inner %s: %w", secret, context.Canceled), "could not load devices")
 		}
